@@ -7,6 +7,8 @@ import fontsynth
 import fontmut
 import featgen
 import passgen
+import importlib
+c13mod = importlib.import_module("props.c13")
 import pathlib
 import sfnt
 
@@ -327,7 +329,13 @@ def run(ctx):
             for k in range((40 if q else 600) if big else (150 if q else 6000)):
                 tabs = {x: tb.get(x, b"") for x in order}
                 if k:
-                    if r.random() < 0.75:
+                    cm = r.random()
+                    if cm < 0.12:
+                        # a synthesised cmap (format 4 with idRangeOffset arrays, with or without format 12), as it is or with the
+                        # first format 4 subtable's length made odd / one short, its segment count or last end code changed
+                        wf = c13mod.gen_wf(r, consistent=(k % 2 == 0))[0]
+                        tabs["cmap"] = wf if cm < 0.03 else passgen.mutate_cmap_subtable(r, wf)
+                    elif r.random() < 0.75:
                         tabs.update(passgen.mutate_gfx_tables(r, {x: tabs[x] for x in order[:7]}))
                     else:
                         which = r.choice(["Silf", "Gloc"])
